@@ -176,4 +176,35 @@ void zstd_verif_pool_dequeued(void* ctx, void* opaque);
         && (size_t)(__CPROVER_POINTER_OFFSET(op) - __CPROVER_POINTER_OFFSET(dst)) == (cSize)) \
     __CPROVER_decreases((numSplits) + 1 - (i))
 
+/* ---- streaming compressor, buffered mode (lib/compress/zstd_compress.c, ZSTD_compressStream_generic): stage loop ----
+ * cursors inside the user's buffers; staging indices ordered; in the load stage nothing is waiting to be flushed;
+ * every byte accepted from the user is either still pending in the staging buffer or has been handed to the
+ * block-level compressor (ghost totals). */
+#define ZSTD_VERIF_CSTREAM_FRAME(z) \
+    (z)->streamStage, (z)->inBuffPos, (z)->inBuffTarget, (z)->inToCompress, (z)->outBuffContentSize, (z)->outBuffFlushedSize, \
+    (z)->frameEnded, (z)->stableIn_notConsumed, (z)->pledgedSrcSizePlusOne
+#define ZSTD_VERIF_CSTREAM_LOOP(z, ip, istart, iend, op, ostart, oend, more, mode) \
+    __CPROVER_assigns(ip, op, more, ZSTD_VERIF_CSTREAM_FRAME(z), ZSTD_VERIF_GHOST_FRAME, \
+                      __CPROVER_object_whole((z)->inBuff), __CPROVER_object_whole((z)->outBuff), __CPROVER_object_whole(ostart)) \
+    __CPROVER_loop_invariant(((more) == 0 || (more) == 1) \
+        && __CPROVER_same_object(ip, istart) && __CPROVER_POINTER_OFFSET(ip) >= __CPROVER_POINTER_OFFSET(__CPROVER_loop_entry(ip)) && __CPROVER_POINTER_OFFSET(ip) <= __CPROVER_POINTER_OFFSET(iend) \
+        && __CPROVER_same_object(op, ostart) && __CPROVER_POINTER_OFFSET(op) >= __CPROVER_POINTER_OFFSET(__CPROVER_loop_entry(op)) && __CPROVER_POINTER_OFFSET(op) <= __CPROVER_POINTER_OFFSET(oend) \
+        && (z)->inToCompress <= (z)->inBuffPos && ((z)->inBuffPos < (z)->inBuffTarget || (z)->frameEnded) && (z)->inBuffPos <= (z)->inBuffTarget && (z)->inBuffTarget <= (z)->inBuffSize \
+        && (z)->inBuffTarget - (z)->inToCompress <= (z)->blockSize + 1 \
+        && (z)->outBuffFlushedSize <= (z)->outBuffContentSize && (z)->outBuffContentSize <= (z)->outBuffSize \
+        && ((z)->streamStage == zcss_load || (z)->streamStage == zcss_flush || ((z)->streamStage == zcss_init && (more) == 0 && (z)->frameEnded)) \
+        && ((z)->streamStage != zcss_load || ((z)->outBuffContentSize == 0 && (z)->outBuffFlushedSize == 0)) \
+        && ((z)->frameEnded == 0 || (z)->frameEnded == 1) \
+        && ((z)->frameEnded == 0 || (z)->streamStage != zcss_load) \
+        && zstd_verif_ghost.cs_loaded == __CPROVER_loop_entry(zstd_verif_ghost.cs_loaded) + (size_t)(__CPROVER_POINTER_OFFSET(ip) - __CPROVER_POINTER_OFFSET(__CPROVER_loop_entry(ip))) \
+        && zstd_verif_ghost.cs_loaded - zstd_verif_ghost.cs_compressed == (z)->inBuffPos - (z)->inToCompress \
+        && zstd_verif_ghost.cs_compressed <= zstd_verif_ghost.cs_loaded \
+        && ((z)->frameEnded == 0 || (__CPROVER_POINTER_OFFSET(ip) == __CPROVER_POINTER_OFFSET(iend) && (z)->inBuffPos == (z)->inToCompress)) \
+        /* why the loop may stop */ \
+        && ((more) == 1 || (z)->frameEnded || (mode) == ZSTD_e_continue || (z)->outBuffContentSize > (z)->outBuffFlushedSize \
+            || ((mode) == ZSTD_e_flush && __CPROVER_POINTER_OFFSET(ip) == __CPROVER_POINTER_OFFSET(iend) && (z)->inBuffPos == (z)->inToCompress)) \
+        /* progress */ \
+        && ((more) == 1 || __CPROVER_POINTER_OFFSET(ip) > __CPROVER_POINTER_OFFSET(__CPROVER_loop_entry(ip)) || __CPROVER_POINTER_OFFSET(op) > __CPROVER_POINTER_OFFSET(__CPROVER_loop_entry(op)) \
+            || __CPROVER_POINTER_OFFSET(__CPROVER_loop_entry(ip)) == __CPROVER_POINTER_OFFSET(iend) || __CPROVER_POINTER_OFFSET(__CPROVER_loop_entry(op)) == __CPROVER_POINTER_OFFSET(oend)))
+
 #endif
